@@ -285,6 +285,13 @@ func (g *gen) value(from int, t *TExpr, depth int) *CV {
 			if g.r.Bool() {
 				return &CV{Kind: 'i', I: vals[k]}
 			}
+			// now and then through a typedef of the enum (`typedef Color Colour` … `Colour.GREEN`): that
+			// is not a way to name an enum item, in whatever order the definitions are linked
+			if g.cfg.selfRefs && t.Kind == "ref" && t.Target != nil && t.Target.Kind == 'T' && g.r.Chance(1, 8) {
+				if s := g.spelled(from, t.Target); s != "" {
+					return &CV{Kind: 'r', R: s + "." + d.Items[k].Name}
+				}
+			}
 			if s := g.spelled(from, d); s != "" {
 				return &CV{Kind: 'r', R: s + "." + d.Items[k].Name}
 			}
